@@ -56,6 +56,12 @@ CLAIMED = {
     "C11": ("DESIGN.md §2 C11",
             "Bounded symbolic model checking via the change-of-variables formula: the sampling maps are executed symbolically, differentiated w.r.t. the random draws through the definitions of sqrt/cos/sin/quotients, and z3 proves |det J| = measure (interiors), speed = perimeter (boundaries), the 1/2-1/2 two-point law, row-local order-preserving rejection, the union mixture threshold, acceptance proportional to fibre measure for dependent products, equal-area / lattice structure of grids, the requested normal law and the LHS one-point-per-slab property for every permutation.",
             "probabilistic lemmas L1-L4 assumed (listed in checks/c11.py); a.e. claims (interior draws, away from kinks); 1 point per call; golden-angle equidistribution outside; LHS n<=3, grids n<=4"),
+    "C17": ("DESIGN.md §2 C17",
+            "Bounded symbolic model checking: parameter-dependent catalogue shapes (one and two parameter variables) are partially evaluated with symbolic values; membership, volume, bounding box and samples (same draw symbols) of D(**v) are proved (z3) equal to those of D at params=v, also for boundaries, nested operations and repeated evaluation; the original is compared before/after; necessary_variables against the free variables.",
+            "k<=2 rows of the remaining variables, n<=2 samples, nesting depth<=2; polygon grids and dependent-product volume/bbox not compared"),
+    "C18": ("DESIGN.md §2 C18",
+            "Bounded symbolic model checking: bounding_box runs with symbolic shape parameters and parameter rows (Python min/max either forked or as if-then-else terms); every oracle member point is proved (z3) to lie in the box per row and axis, tightness for primitives, the composition layer on arbitrary operands with symbolic enclosing boxes; NormalizationLayer maps members into [-1,1]^d; LHS slabs cover the box.",
+            "k<=2 rows; rotated polygons with concrete inner polygon (general composition via abstract operands); dependent products only via set_bounding_box"),
 }
 
 NOT_APPLICABLE = {
